@@ -329,8 +329,11 @@ class BruteSolver(IncrementalTrackingSolver):
         return len(self._backtrack_points)
 
     def snapshot(self):
-        """(assertion stack, backtrack points) -- what C18 requires to be restored."""
-        return (list(self._assertion_stack), list(self._backtrack_points))
+        """(assertion stack, backtrack points) -- what C18 requires to be restored.  The
+        assertions are read through the public property, i.e. as a user sees them (a level left
+        pending by is_sat/is_valid/is_unsat is removed first)."""
+        a = list(self.assertions)
+        return (a, list(self._backtrack_points))
 
 
 class BruteSUA(BruteSolver, SUAOptimizerMixin):
